@@ -104,6 +104,11 @@ def run(spec, R):
         for i in range(spec['cases']):
             batch = treegen.make_batch(rng, lang, 'any' if lang == 'en' else 'ja')
             flat = [st for trees in batch for st in trees]
+            if lang == 'en' and rng.random() < 0.2:
+                for trees in batch:
+                    for tok in trees[0].tree.tokens:
+                        if rng.random() < 0.3:
+                            tok[rng.choice(('entity', 'chunk', 'lemma'))] = ''          # an empty attribute value is legal XML
             wit = {'lang': lang, 'batch': repr([treegen.tree_dump(st.tree) for st in flat])[:3000]}
             nontriv = any(len(st.tree.leaves) >= 2 for st in flat)
             # ---------- (a) C&C XML, English
